@@ -8,6 +8,7 @@ import (
 	"math/big"
 	"strings"
 	"testing"
+	"time"
 
 	"github.com/zenon-network/go-zenon/chain/nom"
 	"github.com/zenon-network/go-zenon/common/db"
@@ -143,6 +144,26 @@ func TestC11(t *testing.T) {
 			case "stake", "sentinel-register", "deposit-qsr", "collect-reward", "pillar-delegate", "pillar-undelegate":
 				h.Intents = append(h.Intents, in, in)
 			}
+		}
+		// momentums per epoch and producer, from the chain (kept incrementally)
+		produced := map[uint64]map[types.Address]int{}
+		scannedTo := uint64(1)
+		producedPerEpoch := func() map[uint64]map[types.Address]int {
+			ms := h.A.Chain.GetFrontierMomentumStore()
+			ep := int64(consensus.EpochDuration / time.Second)
+			for ht := scannedTo + 1; ht <= h.A.Height(); ht++ {
+				m, err := ms.GetMomentumByHeight(ht)
+				if err != nil || m == nil {
+					break
+				}
+				e := uint64((m.Timestamp.Unix() - h.W.Spec.Timestamp) / ep)
+				if produced[e] == nil {
+					produced[e] = map[types.Address]int{}
+				}
+				produced[e][m.Producer()]++
+				scannedTo = ht
+			}
+			return produced
 		}
 		tr := map[types.Address]*c11track{}
 		for _, ct := range c11contracts {
@@ -295,6 +316,35 @@ func TestC11(t *testing.T) {
 						rewardedPairs[fmt.Sprintf("%s/%d", name, e)] = true
 					}
 				}
+				// each epoch is rewarded: an epoch the cursor has passed in which pillars that are still registered produced
+				// momentums has a pillar credit (production is paid per momentum)
+				if ct == types.PillarContract {
+					producedBy := producedPerEpoch()
+					active := map[types.Address]bool{}
+					if list, err := definition.GetPillarsList(st, true, definition.AnyPillarType); err == nil {
+						for _, p := range list {
+							active[p.BlockProducingAddress] = true
+						}
+					}
+					for e := int64(0); e <= le.LastEpoch; e++ {
+						n := 0
+						for prod, k := range producedBy[uint64(e)] {
+							if active[prod] {
+								n += k
+							}
+						}
+						if n == 0 {
+							continue
+						}
+						tot := new(big.Int)
+						for _, v := range hist[uint64(e)] {
+							tot.Add(tot, v.znn)
+						}
+						if tot.Sign() == 0 {
+							c.Failf("C11/epoch-not-rewarded/pillar", "the pillar contract's cursor is past epoch %d (last rewarded epoch %d); %d momentums of that epoch were produced by pillars that are still registered, yet nothing was credited for it", e, le.LastEpoch, n)
+						}
+					}
+				}
 				t.lastEpoch = le.LastEpoch
 				t.prevHist = hist
 				// the deposit variable equals credited - collected for every known address
@@ -357,6 +407,22 @@ func TestC11(t *testing.T) {
 			"transfer": h.ActTransfer, "receive": h.ActReceive, "callABI": h.ActCallABI,
 			"intent": h.ActIntent, "intent2": h.ActIntent, "intent3": h.ActIntent,
 			"produce": h.ActProduce, "produce2": h.ActProduce, "produce3": h.ActProduce,
+			// more than twenty epochs in a row in which pillars produce (one momentum each) but none of them sends the
+			// contracts' updates: the catch-up afterwards rewards every one of them
+			"lazyEpochs": func() {
+				if c.Weighted("lazyEpochs.do", 3, 1) == 0 || h.Dead {
+					return
+				}
+				slots := int(consensus.EpochDuration/time.Second) / 10
+				for i, n := 0, c.Int("lazyEpochs.n", 21, 30); i < n; i++ {
+					if err := h.A.ProduceBare(slots - 1); err != nil {
+						return
+					}
+					h.Momentums++
+				}
+				missed = true
+				c.Class("many-epochs-with-production-and-no-update")
+			},
 			"skipAhead": func() {
 				missed = true
 				h.Produce(c.Int("skipAhead", 10, 90))
